@@ -640,6 +640,33 @@ pub fn rec_budget(args: &Args) {
                 download(&mut out, start, &d, &mut r, xid);
             }
         }
+        // long transfers at budgets whose room is exactly the block size: the Block2 option needs two bytes
+        // from block 16 on (three from block 4096 on, thorough tier), with the longest token and with replies
+        // that do and do not carry options between Uri-Path and Block2
+        for p in [1u32, 2] {
+            for optset in [0u8, 1, 2] {
+                for toklen in [8usize, 3] {
+                    // shortest path, so that the reply's overhead (not the request's) decides the budget
+                    let sg = segs[0].clone();
+                    let ov = {
+                        let mut q = Packet::new();
+                        q.set_token(vec![0; toklen]);
+                        let mut rr = CoapResponse { message: q };
+                        app_options(&mut rr, optset);
+                        rr.message.to_bytes_unlimited().map(|b| b.len()).unwrap_or(4)
+                    };
+                    // room = block size + d: just too small for that size (the next smaller one is due), exactly
+                    // enough, and a little more
+                    for d in [-9i64, -8, -7, -4, 0, 1] {
+                        let bs = 16usize << p;
+                        let nblocks = if thorough && d == 0 && toklen == 8 && p == 1 { 4100 } else { 19 };
+                        let dl = Dl { body_len: bs * nblocks + 3, m: (ov as i64 + 12 + bs as i64 + d) as usize, first_szx: if d % 2 == 0 { Some(p as u8) } else { None }, reduce: None, optset, toklen, segs: sg.clone(), typ: 0, prior: 0, reqopts: 0 };
+                        xid += 1;
+                        download(&mut out, start, &dl, &mut r, xid);
+                    }
+                }
+            }
+        }
         // uploads: the acknowledged size must let the client's next block fit
         for szx in 0..=7u8 {
             for _ in 0..(if thorough { 6 } else { 3 }) {
@@ -686,7 +713,19 @@ fn hostile_request(r: &mut Rng, m: usize) -> (Packet, &'static str) {
     let tl = r.below(9) as usize;
     p.set_token(r.bytes(tl));
     let seg: &[u8] = *r.pick(&[&b"up"[..], &b"up"[..], &b"x"[..], &[0xFF, 0xFE][..]]);
-    p.add_option(CoapOption::UriPath, seg.to_vec());
+    if r.chance(1, 10) {
+        // path segments around the 255-byte limit of RFC 7252, ASCII and with a multi-byte character
+        // across offsets 254..257 (valid UTF-8), and an empty one
+        let ascii = *r.pick(&[253usize, 254, 255, 256, 300]);
+        let mut long: Vec<u8> = vec![b'a'; ascii];
+        match r.below(4) { 0 => long.extend("é".as_bytes()), 1 => long.extend("漢".as_bytes()), 2 => long.extend("😁x".as_bytes()), _ => {} }
+        p.add_option(CoapOption::UriPath, long);
+        if r.chance(1, 2) {
+            p.add_option(CoapOption::UriPath, vec![]);
+        }
+    } else {
+        p.add_option(CoapOption::UriPath, seg.to_vec());
+    }
     let nums = [0u16, 1, 2, 100, 4095, 4096, 65535];
     for (opt, chance) in [(CoapOption::Block1, 2), (CoapOption::Block2, 3)] {
         if r.chance(1, chance) {
@@ -1097,6 +1136,40 @@ pub fn rec_expiry(args: &Args) {
         run_step(&mut h, &mut out, &json!({"op": "sleep", "ms": ttl * 4 + 5}), &tag);
         let u1 = mkreq(&ReqSpec { code: 3, typ: 0, mid: next_mid(), tok: vec![5], segs: &up, b1: Some((1, false, 0)), b2: None, pay: vec![7, 7], extra: vec![] });
         run_step(&mut h, &mut out, &json!({"op": "ireq", "ep": "sleeper", "req": jpkt(&u1), "app": {"some": true, "v": {"code": 0x44, "pay": [], "opts": []}}}), &json!({"kind": "expiry-follow"}));
+    }
+    // every use counts as a use: a transfer kept busy only by repeats of the last block request (lost
+    // replies), each gap well below the expiry, the total well above it - the next block still comes from the cache
+    for ttl in if thorough { vec![60u64, 100, 150] } else { vec![80u64] } {
+        let mut h = H::new(&mut out, 1152, ttl, start);
+        let tag = json!({"kind": "keepalive", "ttl": ttl});
+        let body = body_bytes(100, 6);
+        let app = json!({"some": true, "v": {"code": 0x45, "pay": jbytes(&body), "opts": []}});
+        for k in 0..2u16 {
+            let p = mkreq(&ReqSpec { code: 1, typ: 0, mid: next_mid(), tok: vec![1], segs: &seg, b1: None, b2: Some((k, false, 0)), pay: vec![], extra: vec![] });
+            run_step(&mut h, &mut out, &json!({"op": "ireq", "ep": "sleeper", "req": jpkt(&p), "app": app}), &tag);
+        }
+        for _ in 0..6 {
+            run_step(&mut h, &mut out, &json!({"op": "sleep", "ms": ttl * 3 / 10}), &tag);
+            let p = mkreq(&ReqSpec { code: 1, typ: 0, mid: next_mid(), tok: vec![1], segs: &seg, b1: None, b2: Some((1, false, 0)), pay: vec![], extra: vec![] });
+            run_step(&mut h, &mut out, &json!({"op": "ireq", "ep": "sleeper", "req": jpkt(&p), "app": app}), &tag);
+        }
+        run_step(&mut h, &mut out, &json!({"op": "sleep", "ms": ttl * 3 / 10}), &tag);
+        let p = mkreq(&ReqSpec { code: 1, typ: 0, mid: next_mid(), tok: vec![1], segs: &seg, b1: None, b2: Some((2, false, 0)), pay: vec![], extra: vec![] });
+        run_step(&mut h, &mut out, &json!({"op": "ireq", "ep": "sleeper", "req": jpkt(&p), "app": {"some": true, "v": {"code": 0x45, "pay": jbytes(&body_bytes(40, 8)), "opts": []}}}), &json!({"kind": "keepalive-next"}));
+        // the same for an upload: repeats of the last non-final block
+        let mut h = H::new(&mut out, 1152, ttl, start);
+        for k in 0..2u16 {
+            let p = mkreq(&ReqSpec { code: 3, typ: 0, mid: next_mid(), tok: vec![2], segs: &up, b1: Some((k, true, 0)), b2: None, pay: body_bytes(16, 9 + k as usize), extra: vec![] });
+            run_step(&mut h, &mut out, &json!({"op": "ireq", "ep": "sleeper", "req": jpkt(&p), "app": {"some": false}}), &tag);
+        }
+        for _ in 0..6 {
+            run_step(&mut h, &mut out, &json!({"op": "sleep", "ms": ttl * 3 / 10}), &tag);
+            let p = mkreq(&ReqSpec { code: 3, typ: 0, mid: next_mid(), tok: vec![2], segs: &up, b1: Some((1, true, 0)), b2: None, pay: body_bytes(16, 10), extra: vec![] });
+            run_step(&mut h, &mut out, &json!({"op": "ireq", "ep": "sleeper", "req": jpkt(&p), "app": {"some": false}}), &tag);
+        }
+        run_step(&mut h, &mut out, &json!({"op": "sleep", "ms": ttl * 3 / 10}), &tag);
+        let p = mkreq(&ReqSpec { code: 3, typ: 0, mid: next_mid(), tok: vec![2], segs: &up, b1: Some((2, false, 0)), b2: None, pay: vec![7, 7], extra: vec![] });
+        run_step(&mut h, &mut out, &json!({"op": "ireq", "ep": "sleeper", "req": jpkt(&p), "app": {"some": true, "v": {"code": 0x44, "pay": [], "opts": []}}}), &json!({"kind": "keepalive-next"}));
     }
     // expiries that are not whole milliseconds, zero included: what is configured is what applies
     for ttl_us in if thorough { vec![0u64, 1, 750, 999, 1500, 20_500] } else { vec![0u64, 750, 20_500] } {
